@@ -822,26 +822,50 @@ func ExpandDNF(d DNF, known func(atom string) bool) DNF {
 // under which path condition: phi alternatives are split per incoming edge. The rows'
 // Outcome is "value:<sig>" and Val is the alternative.
 func ValueRows(fn *ssa.Function, v ssa.Value, at *ssa.BasicBlock) ([]Row, error) {
+	return valueRows(fn, v, at, false)
+}
+
+// ValueRowsLoops is ValueRows that also follows the operands carried around loops (back
+// edges): such an alternative is described by the condition of the iteration that produced it.
+func ValueRowsLoops(fn *ssa.Function, v ssa.Value, at *ssa.BasicBlock) ([]Row, error) {
+	return valueRows(fn, v, at, true)
+}
+
+func valueRows(fn *ssa.Function, v ssa.Value, at *ssa.BasicBlock, loops bool) ([]Row, error) {
 	conds, edgeConds, ok := PathCondsE(fn)
 	if !ok {
 		return nil, fmt.Errorf("path condition of %s exceeds %d terms", FuncName(fn), maxTerms)
 	}
 	var rows []Row
+	seenPhi := map[*ssa.Phi]bool{}
 	var walk func(v ssa.Value, b *ssa.BasicBlock, cond DNF, depth int)
 	walk = func(v ssa.Value, b *ssa.BasicBlock, cond DNF, depth int) {
 		if len(cond) == 0 {
 			return
 		}
 		if phi, isPhi := v.(*ssa.Phi); isPhi && depth < 6 {
+			if seenPhi[phi] {
+				return
+			}
+			seenPhi[phi] = true
 			pb := phi.Block()
 			for i, e := range phi.Edges {
 				p := pb.Preds[i]
-				if pb.Dominates(p) {
+				back := pb.Dominates(p)
+				if back && !loops {
 					continue
 				}
 				pc, have := edgeConds[Edge{p, pb}]
 				if !have {
 					pc = conds[p]
+					if iff, isIf := lastIf(p); isIf && p.Succs[0] != p.Succs[1] {
+						cv, neg := BoolCond(iff.Cond)
+						pos := p.Succs[0] == pb
+						if neg {
+							pos = !pos
+						}
+						pc = pc.and(mkLit(cv, pos))
+					}
 				}
 				walk(e, p, simplify(pc), depth+1)
 			}
